@@ -421,6 +421,12 @@ fixed("FX-C08-array-functions-cse", "C08", "5a925c4", "=ACOSH(A3:A4) entered as 
 fixed("FX-C08-typed-number", "C08", "7cbbd28", "typing 1.8e308 created a number cell holding inf", c08("1.8e308"))
 fixed("FX-C08-imported-number", "C08", "b1fce7b", "<v>NaN</v> in an xlsx file became a NaN number cell", {"file_numbers": ["NaN", "inf", "1E+999", "-Infinity"]})
 
+# ---------------------------------------------------------------- C07
+open_("F-C07-spill-cycle-first-evaluation", "C07",
+      "a reference cycle that is closed through a spill (an array formula whose spill range covers a cell its own input depends on) is only reported as #CIRC! from the second evaluation on: evaluating twice changes values",
+      {"nsheets": 1, "cells": [[0, 1, 3, "=-NOT(C6)"], [0, 6, 2, "=A1:B2*2"], [0, 2, 1, "=SUM(SEQUENCE(3))+C1:C2"]], "perm": [2, 1, 0]},
+      sigs=["route-differs|evaluated-twice|arrays"])
+
 def main():
     os.makedirs(os.path.join(HERE, "findings"), exist_ok=True)
     out = []
